@@ -1,4 +1,5 @@
 import Drpc.Lemmas.StreamSolo
+import Drpc.Lemmas.StreamInvStep
 /-
   C03 — Stream lifecycle follows the documented state machine.
   Property theorems only.  Part 1: call-level behaviour from any quiet state (no call in flight),
@@ -154,4 +155,108 @@ theorem recv_after_cancel_is_ctx_error (s : St) (t : Tid) (tag : Nat) (hq : Quie
   obtain ⟨h1, h2, h3, h4, h5, h6, h7, h8⟩ := hq
   solo
 
+/-! ## Part 2: invariants of every reachable state of the atomic-step model, any number of
+    threads, any interleaving (`Reach`: thread steps, transport/Marshal/Unmarshal completions,
+    and any idle thread starting any call). -/
+
+/-- A terminated stream is closed in both directions. -/
+theorem terminated_closes_both {s : St} (h : Reach s) (ht : s.sh.term.isSome = true) :
+    s.sh.send.isSome = true ∧ s.sh.recv.isSome = true :=
+  (reach_sigs h).termSR ht
+
+/-- Finished implies terminated. -/
+theorem finished_implies_terminated {s : St} (h : Reach s) (hf : s.sh.fin = true) :
+    s.sh.term.isSome = true :=
+  (reach_sigs h).finTerm hf
+
+/-- The stream's context is done exactly when the stream is finished. -/
+theorem ctx_done_iff_finished {s : St} (h : Reach s) : s.sh.ctxDone = s.sh.fin :=
+  (reach_sigs h).ctx.1
+
+/-- The `fin` notification is sent exactly once, at the moment the stream finishes. -/
+theorem fin_notified_exactly_once {s : St} (h : Reach s) :
+    s.sh.finTokens = if s.sh.fin then 1 else 0 :=
+  (reach_sigs h).ctx.2
+
+/-- Signals are set-once: no step of any thread changes a signal that is already set
+    (first error wins, for `send`, `recv`, `term`, `cancel`; `fin` and the context stay set). -/
+theorem signals_set_once {s s' : St} {t : Tid} (h : step s t = some s') :
+    (∀ e, s.sh.send = some e → s'.sh.send = some e) ∧ (∀ e, s.sh.recv = some e → s'.sh.recv = some e) ∧
+    (∀ e, s.sh.term = some e → s'.sh.term = some e) ∧ (∀ e, s.sh.cancel = some e → s'.sh.cancel = some e) ∧
+    (s.sh.fin = true → s'.sh.fin = true) ∧ (s.sh.ctxDone = true → s'.sh.ctxDone = true) :=
+  step_sigMono h
+
+/-- … and environment events (transport, Marshal, Unmarshal completions) touch no signal. -/
+theorem signals_untouched_by_env {s s' : St} {e : Env} (h : envStep s e = some s') :
+    s'.sh.send = s.sh.send ∧ s'.sh.recv = s.sh.recv ∧ s'.sh.term = s.sh.term ∧ s'.sh.fin = s.sh.fin ∧
+    s'.sh.cancel = s.sh.cancel ∧ s'.sh.ctxDone = s.sh.ctxDone ∧ s'.sh.finTokens = s.sh.finTokens :=
+  env_signals h
+
+/-- Terminated and not finished: some thread is still inside an operation (in a write-held or
+    read-held section, between releasing it and the end of its `checkFinished`, or inside
+    `terminate`) — it will run the `checkFinished` that finishes the stream. -/
+theorem unfinished_has_pending_operation {s : St} (h : Reach s) (ht : s.sh.term.isSome = true)
+    (hf : s.sh.fin = false) : ∃ t, obligated (s.pc t) = true :=
+  (reach_sigs h).obligated ⟨ht, hf⟩
+
+/-- Finished exactly when terminated and no operation in flight: in a reachable state where every
+    thread has returned from its call, a terminated stream is finished. -/
+theorem finished_when_idle {s : St} (h : Reach s) (hidle : ∀ t, ∃ r, s.pc t = .done r)
+    (ht : s.sh.term.isSome = true) : s.sh.fin = true := by
+  cases hf : s.sh.fin with
+  | true => rfl
+  | false =>
+    obtain ⟨t, ho⟩ := (reach_sigs h).obligated ⟨ht, hf⟩
+    obtain ⟨r, hr⟩ := hidle t
+    rw [hr] at ho; cases ho
+
+theorem finished_iff_terminated_when_idle {s : St} (h : Reach s) (hidle : ∀ t, ∃ r, s.pc t = .done r) :
+    s.sh.fin = true ↔ s.sh.term.isSome = true :=
+  ⟨finished_implies_terminated h, finished_when_idle h hidle⟩
+
+/-- non-vacuity: after `Cancel` on a fresh stream every thread is idle, the stream is terminated,
+    finished, its context done and exactly one `fin` token was sent -/
+example : Reach (call {} 0 (.cancel 7)) ∧ (∀ t, ∃ r, (call {} 0 (.cancel 7)).pc t = .done r) ∧
+    (call {} 0 (.cancel 7)).sh.term = some (.ctx 7) ∧ (call {} 0 (.cancel 7)).sh.fin = true ∧
+    (call {} 0 (.cancel 7)).sh.ctxDone = true ∧ (call {} 0 (.cancel 7)).sh.finTokens = 1 := by
+  refine ⟨reach_call _ (Reach.init {}) ⟨_, rfl⟩, ?_, by decide, by decide, by decide, by decide⟩
+  intro t
+  by_cases ht : t = 0
+  · subst ht; exact ⟨.bool false, by decide⟩
+  · exact ⟨.nil, by rw [call_pc_other _ _ _ _ ht]⟩
+
+/-- The lifecycle follows the documented graph: every step of every thread leaves the abstract
+    state (`abs`) unchanged, or moves it along an edge of `drpcstream/state.dot`
+    (`Generated.stateEdges`, regenerated from the repository on every run; compared as unlabeled
+    (from, to) pairs), or along the ONE extra pair
+
+      terminated → canceled
+
+    which is really taken (`terminated_to_canceled_taken`): `Cancel` / a remote `KindCancel`
+    arriving while a terminated stream is not yet finished (an operation still in flight) sets
+    the `cancel` signal, and `abs` ranks canceled above terminated, as `state.dot` does for the
+    states before termination.  Intermediate positions inside one call (e.g. `SendError` sets
+    `send` before it sets `term`, so open → send-closed → terminated) also stay on documented
+    edges. -/
+theorem refines_documented_graph {s s' : St} {t : Tid} (h : Reach s) (hs : step s t = some s') :
+    abs s'.sh = abs s.sh ∨ docEdge (abs s.sh) (abs s'.sh) = true ∨
+      (abs s.sh = .terminated ∧ abs s'.sh = .canceled) := by
+  refine abs_of_mono (step_sigMono hs) ?_
+  intro hf
+  rcases step_fin_new hs hf with h1 | h1
+  · exact .inl h1
+  · exact .inr ((reach_sigs h).cf23 t (atCf3_atCf23 _ h1))
+
+/-- environment events and new calls do not change the abstract state -/
+theorem abs_unchanged_by_env {s s' : St} {e : Env} (h : envStep s e = some s') : abs s'.sh = abs s.sh := by
+  obtain ⟨h1, h2, h3, h4, h5, _, _⟩ := env_signals h
+  simp [abs, *]
+
+/-- The extra pair of `refines_documented_graph` is really taken. -/
+theorem terminated_to_canceled_taken :
+    Reach tcState ∧ abs tcState.sh = .terminated ∧
+    (step tcState 2).map (fun s' => abs s'.sh) = some .canceled := by
+  refine ⟨?_, by decide, by decide⟩
+  refine reach_runSolo _ _ (Reach.spawn ?_ ⟨.nil, by decide⟩)
+  exact reach_call _ (reach_call _ (Reach.init {}) ⟨_, rfl⟩) ⟨.nil, by decide⟩
 end Drpc.Props.C03
